@@ -117,8 +117,49 @@ pub fn record(seed: u64, thorough: bool, wd: &crate::rec_more::Watchdog) -> (Vec
         out.push(analysed_event(id, n, &edges, m, Some(wd)));
         id += 1;
     }
+    // the analysis as the solver runs it: problems with one or two sparse PSD cones next to other cones, every merge
+    // strategy, compact and standard transformation; every tree the solver holds is one Analysed event (no edge list:
+    // the pattern is the solver's own), and the size of the augmented problem must be what the trees' blocks add up to
+    let nbuilt = if thorough { 1500 } else { 120 };
+    let mut built_multi = 0;
+    for k in 0..nbuilt {
+        let mut p = crate::rec_decomp::sparse_sdp(&mut rng, true, false);
+        if !p.settings.is_object() { p.settings = json!({}); }
+        let merge = merges[k % 3];
+        p.settings["chordal_decomposition_enable"] = json!(true);
+        p.settings["chordal_decomposition_merge_method"] = json!(merge);
+        p.settings["chordal_decomposition_compact"] = json!(k % 2 == 0);
+        p.settings["chordal_decomposition_complete_dual"] = json!(true);
+        let ev = json!({"ev": "Building", "id": id, "merge": merge, "cones": serde_json::to_value(&p.cones).unwrap()});
+        wd.tick(&ev);
+        let res = catch_unwind(AssertUnwindSafe(|| {
+            let (P, A) = (p.P.to_clarabel(), p.A.to_clarabel());
+            let solver = clarabel::solver::DefaultSolver::new(&P, &p.q, &A, &p.b, &p.clarabel_cones(), p.settings());
+            clarabel::verif::chordal_view(&solver.data).map(|v| (v, solver.data.m, solver.data.cones.len()))
+        }));
+        match res {
+            Err(e) => out.push(json!({"ev": "Panic", "id": id, "n": 0, "edges": [], "merge": merge, "msg": crate::rec_ipm::panic_msg(e), "problem": serde_json::to_value(&p).unwrap()})),
+            Ok(None) => {}
+            Ok(Some((v, m2, ncones2))) => {
+                if v.trees.len() > 1 { built_multi += 1; }
+                let decomposed: Vec<usize> = v.trees.iter().map(|(i, _)| *i).collect();
+                let other_rows: usize = v.init_cones.iter().enumerate().filter(|(i, _)| !decomposed.contains(i)).map(|(_, c)| crate::problem::ConeSpec::from_clarabel(c).numel()).sum();
+                let other_cones = v.init_cones.len() - decomposed.len();
+                let nblks: Vec<Vec<usize>> = v.trees.iter().map(|(_, t)| t.nblk.clone()).collect();
+                let seps: Vec<Vec<usize>> = v.trees.iter().map(|(_, t)| t.post.iter().map(|&c| t.sep[c].len()).collect()).collect();
+                out.push(json!({"ev": "Built", "id": id, "merge": merge, "compact": v.compact, "m": v.init_dims.1, "m2": m2, "ncones2": ncones2,
+                                "other_rows": other_rows, "other_cones": other_cones, "nblk": nblks, "sepsize": seps}));
+                for (_, t) in &v.trees {
+                    out.push(json!({"ev": "Analysed", "id": id, "n": t.n, "edges": [], "merge": merge, "dense": false,
+                                    "snode": t.snode, "sep": t.sep, "parent": t.parent, "post": t.post, "nblk": t.nblk,
+                                    "ncliques": t.n_cliques, "ordering": t.ordering}));
+                }
+            }
+        }
+        id += 1;
+    }
     let panics = out.iter().filter(|e| e["ev"] == "Panic").count();
     let multi = out.iter().filter(|e| e["ev"] == "Analysed" && e["ncliques"].as_u64().unwrap_or(0) > 1).count();
-    let meta = json!({"events": out.len(), "small_graph_events": exhaustive_part, "random_events": nrand, "panics": panics, "multi_clique": multi});
+    let meta = json!({"events": out.len(), "small_graph_events": exhaustive_part, "random_events": nrand, "panics": panics, "multi_clique": multi, "built": nbuilt, "built_with_two_decomposed_cones": built_multi});
     (out, meta)
 }
